@@ -68,6 +68,9 @@ func RunPlan(p *Plan, dir string, keepTrace bool) (res *Result) {
 			w.Close()
 		}
 	}()
+	if resetPools != nil {
+		resetPools() // pooled objects of an earlier run of this process must not reach this one
+	}
 	w = New(p.Cfg, dir)
 	for _, u := range p.Users {
 		w.IdP.AddUser(u.Email, u.Verified, u.Groups...)
